@@ -1282,8 +1282,17 @@ def replay(ctx, rp):
 
 
 MANIFEST = {
-    "text": "in progress",
-    "note": "in progress",
+    "text": "Property oracle on the real server/method.py + server/server.py after every completed step of generated edit sequences "
+            "(recorded library steps, search_method suggestions, random perturbation; live state or copy): contiguous numbering, citations "
+            "earlier+visible, last line = stated goal, full re-check with exactly the open gaps, acceptance with no_gaps when none is left, "
+            "export->import identity, copy isolation. Lean: executable model of the proof-tree structure and of add_line_before / remove_line / "
+            "set_line / replace_id / find_goal / apply_tactic, tied to the code by replaying every recorded primitive call and the ItemID "
+            "arithmetic on the model; theorems: shift_preserves_visibility, visibility_transitive, add_line/set_line/replace_preserves_citations, "
+            "edits_preserve_citations_partial, goal_preserved_nested_partial. Not proved: numbering preservation, remove_line, top-level "
+            "goal preservation, apply_tactic composite, export/import (oracle + correspondence only).",
+    "note": "Trusted: Lean kernel (propext/Classical.choice/Quot.sound), the harness (generators, invariants, recorder), holpy's own checker "
+            "theory.check_proof as the judge of 'checkable', term printing/parsing for the export comparison, z3 checks switched off "
+            "(z3wrapper.check_z3=False). Tactic bodies and Python aliasing are not modelled; copy isolation is checked on real objects only.",
     "design_ref": "DESIGN.md 4/C13",
 }
 FINDINGS = [
@@ -1293,4 +1302,22 @@ FINDINGS = [
     {"status": "known", "key": "import-fails:inst-tyinst-lost",
      "what": "the textual form of an Inst argument ({x: t, ...}) drops its type instantiation: a line `apply_theorem_for finite_empty, {}` "
              "(set.finite_subset after apply_backward_step finite_empty) is exported without 'a := 'a and fails its re-check after import"},
+    {"status": "fixed", "key": "import-fails:induction:TypeError:", "commit": "fixes/C13-1.patch",
+     "what": "a state with an apply_induct line (any use of the induction method, e.g. list.append_right_neutral) could not be re-imported: "
+             "parser.parse_args had no case for Tuple[str, Term, Term]"},
+    {"status": "fixed", "key": "recheck-fails:revert_intro:CheckProofException:_output_does_not", "commit": "fixes/C13-2.patch",
+     "what": "revert_intro on an assumption that is not the last one introduced / is used elsewhere / whose goal is not followed by intros "
+             "left an uncheckable state (recorded proof of set.card_image_inj; logic_base.classical_cases goal 2 fact 0)"},
+    {"status": "fixed", "key": "goal-changed:rewrite_fact_with_prev:last_line_is_`|-", "commit": "fixes/C13-3.patch",
+     "what": "rewrite_fact / rewrite_fact_with_prev / apply_forward_step with a proved line selected as goal deleted that line when an earlier "
+             "line had the same sequent (nat.mult_eq_1: the final line disappeared)"},
+    {"status": "fixed", "key": "recheck-fails:nat_norm:AssertionError:_nat_norm_macro:_normalization_is", "commit": "fixes/C13-4.patch",
+     "what": "nat_norm method completed on equalities its macro cannot prove (nat_norm_macro.eval returned the goal unchecked)"},
+    {"status": "fixed", "key": "recheck-fails:introduction:IndexError:_list_index_out", "commit": "fixes/C13-5.patch",
+     "what": "introduction's already-proved loop removed the conclusion of the new subproof / replaced an assumption by a proved fact; "
+             "a given name captured a free variable of the goal (nat.mult_eq_1 `!n. m * n = 1 ...` with name m)"},
+    {"status": "fixed", "key": "recheck-fails:exists_elim:AssertionError:_intros_macro", "commit": "fixes/C13-6.patch",
+     "what": "exists_elim on a line that is not a gap (logic.right_or_exists_thm, goal 0.2.1 = `assume P`) added a hypothesis to assume lines"},
+    {"status": "fixed", "key": "recheck-fails:rewrite_goal_with_prev:AssertionError:_export:_atom", "commit": "fixes/C13-7.patch",
+     "what": "rewrite_goal_with_prev with a fact like 0 = 0 left the goal unchanged and an uncheckable line (nat.lt_exp)"},
 ]
